@@ -102,6 +102,12 @@ def _first(e):
     return (str(e).split("\n")[0] or e.__class__.__name__)[:120]
 
 
+def _slug(e):
+    """stable discriminator for foreign exceptions (their messages carry no data)"""
+    import re
+    return re.sub(r"[^A-Za-z]+", "-", str(e).split("\n")[0])[:48].strip("-")
+
+
 def compare_text(out_lines, cin, version, prefix=""):
     """failures from comparing written lines with the key multiset of the input"""
     F = []
@@ -137,17 +143,22 @@ def oracle(case):
     for ver in (version, None):
         for vlevel in (1, 0, 2, 3):
             outs = {}
+            str_failed = False
             for entry in ENTRIES:
                 cfg = "entry=%s vlevel=%d version=%s" % (entry, vlevel, ver)
                 try:
                     g = _build(gfapy, entry, lines, vlevel, ver)
-                except gfapy.Error as e:
-                    add("rejected%s[%s]: %s" % ("-trailing-newline" if entry == "str_nl" else "",
-                                                e.__class__.__name__, _first(e)), cfg)
-                    continue
                 except Exception as e:  # noqa
-                    add("rejected%s[%s]: foreign exception %s" % ("-trailing-newline" if entry == "str_nl" else "",
-                                                                e.__class__.__name__, _first(e)), cfg)
+                    if entry == "str":
+                        str_failed = True
+                    if entry == "str_nl" and str_failed:
+                        continue  # same failure as without the final newline
+                    sfx = "-trailing-newline" if entry == "str_nl" else ""
+                    if isinstance(e, gfapy.Error):
+                        add("rejected%s[%s]: %s" % (sfx, e.__class__.__name__, _first(e)), cfg)
+                    else:
+                        add("rejected%s[%s:%s]: foreign exception %s" % (sfx, e.__class__.__name__, _slug(e), _first(e)),
+                            cfg)
                     continue
                 try:
                     out = str(g)
